@@ -199,6 +199,14 @@ Theorem C07_concludes_needs_fairness :
 Proof. exact ex_live_needs_fairness. Qed.
 Print Assumptions C07_concludes_needs_fairness.
 
+(* the same with loss only and a server that answers at once: its retransmission of the separate
+   response outlives the client's give-up *)
+Theorem C07_at_most_once_refuted_late_retransmission :
+  exists acts k,
+    ex_concl_count k (ex_sys_trace (Build_ex_cfg 4 true true false) (ex_sys_init 100 7000) acts) = 2%nat.
+Proof. exact ex_once_refuted_patient_loss. Qed.
+Print Assumptions C07_at_most_once_refuted_late_retransmission.
+
 (* non-vacuity: under the hypotheses exchanges do take place - a concrete schedule with a lost
    empty ACK, a retransmission, a duplicated separate response and a FAIL verdict yields one
    handler call for the token, one RST, then an ACK-less duplicate answered by RST again *)
